@@ -62,6 +62,8 @@ pub(crate) fn checked_div_rounded(
     let mut shift = n_frac_digits + divisor_n_frac_digits;
     match divident_n_frac_digits.cmp(&shift) {
         Ordering::Equal => {
+            #[cfg(all(fpdec_verif, feature = "std"))]
+            fpdec_core::verif::emit(fpdec_core::verif::Event::Path("divr:equal"));
             Some(i128_div_rounded(divident_coeff, divisor_coeff, None))
         }
         Ordering::Less => {
@@ -71,8 +73,12 @@ pub(crate) fn checked_div_rounded(
             if let Some(shifted_divident) =
                 checked_mul_pow_ten(divident_coeff, shift)
             {
+                #[cfg(all(fpdec_verif, feature = "std"))]
+                fpdec_core::verif::emit(fpdec_core::verif::Event::Path("divr:shifted"));
                 Some(i128_div_rounded(shifted_divident, divisor_coeff, None))
             } else {
+                #[cfg(all(fpdec_verif, feature = "std"))]
+                fpdec_core::verif::emit(fpdec_core::verif::Event::Path("divr:wide"));
                 i128_shifted_div_rounded(
                     divident_coeff,
                     shift,
@@ -82,6 +88,8 @@ pub(crate) fn checked_div_rounded(
             }
         }
         Ordering::Greater => {
+            #[cfg(all(fpdec_verif, feature = "std"))]
+            fpdec_core::verif::emit(fpdec_core::verif::Event::Path("divr:divisor_scaled"));
             // divisor coeff needs to be shifted, but instead of calculating
             // divident / (divisor * 10 ^ shift)
             // we can calculate
